@@ -53,6 +53,9 @@ RECV = {
     'self.cur_ele_node': [('error_handler', 'err_ele')],
 }
 
+# attribute names that determine the kind of object they hold
+FIELD_KIND = {'seg_data': SEG, 'x12_map_node': MAPN, 'errh': ERRH}
+
 BUILTIN_EXC = {}
 for _n in dir(builtins):
     _o = getattr(builtins, _n)
@@ -286,7 +289,7 @@ class Graph(object):
             return (imp[recv][1] + '.' + imp[recv][2]).strip('.')
         return None
 
-    def _kind(self, recv, f):
+    def _kind(self, recv, f, _depth=0):
         if recv is None:
             return None
         if recv in RECV:
@@ -296,12 +299,49 @@ class Graph(object):
             return RECV['self.' + last]
         if last in RECV and '.' not in recv:
             return RECV[last]
-        # local bound to a constructor call
-        for s in ast.walk(f.node):
-            if isinstance(s, ast.Assign) and path_of(s.targets[0]) == recv and isinstance(s.value, ast.Call):
-                r2, m2 = A.call_target(s.value)
-                if m2 in self.class_by_name:
-                    return self.class_by_name[m2]
+        # a field whose name says what it holds, whatever it is reached through (errh.cur_isa_node.seg_data)
+        if '.' in recv and last in FIELD_KIND:
+            return FIELD_KIND[last]
+        # local bound to a constructor call, or only ever bound to expressions of one known kind (a renamed local
+        # keeps the kind of what it was assigned), or the loop variable over a reader
+        if '.' not in recv and _depth < 3:
+            kinds = []
+            unknown = False
+            for s in ast.walk(f.node):
+                if isinstance(s, ast.Assign) and len(s.targets) == 1 and path_of(s.targets[0]) == recv:
+                    v = s.value
+                    if isinstance(v, ast.Call):
+                        r2, m2 = A.call_target(v)
+                        if m2 in self.class_by_name:
+                            kinds.append(self.class_by_name[m2])
+                            continue
+                        if m2 in ('copy', '__copy__') and r2:
+                            k2 = self._kind(r2, f, _depth + 1)
+                            if k2:
+                                kinds.append(k2)
+                                continue
+                        unknown = True
+                    elif path_of(v) and path_of(v) != recv:
+                        k2 = self._kind(path_of(v), f, _depth + 1)
+                        if k2:
+                            kinds.append(k2)
+                        else:
+                            unknown = True
+                    else:
+                        unknown = True
+                elif isinstance(s, (ast.For, ast.comprehension)) and path_of(s.target) == recv:
+                    k2 = self._kind(path_of(s.iter), f, _depth + 1) if path_of(s.iter) else None
+                    if k2 and any(c == 'X12Reader' for _m, c in k2):
+                        kinds.append(SEG)
+                    else:
+                        unknown = True
+            if kinds and not unknown:
+                out = []
+                for k in kinds:
+                    for x in k:
+                        if x not in out:
+                            out.append(x)
+                return out
         return None
 
     # -- implicit calls: for x in recv -> __iter__ ; subscripts -> __getitem__ ; property loads
